@@ -378,6 +378,7 @@ class NsTree:
     def __init__(self, rng):
         self.rng = rng
         self.f50 = self.f51 = self.f52 = self.f53 = False
+        self.empty_attr = False
         self.nelem = 0
         self.rebound = False
 
@@ -410,6 +411,7 @@ class NsTree:
                 under_undecl = True
             if rng.random() < 0.2:
                 attrs.append((XMLNS_URI, "xmlns", ""))
+                self.empty_attr = True
             dflt = None
             scope[""] = None
         if rng.random() < 0.15:          # a declaration for the benefit of descendants, possibly rebinding
@@ -1293,8 +1295,11 @@ def run(ctx):
         if t.rebound:
             nstats["rebound-prefix"] += 1
         a = parse_doc_answer(ans)
+        # route (b): Node.normalize() removes the empty Text child of an attribute whose value is "" (DOM Core; the
+        # parser gives such an attribute an empty Text child): the same attribute value, a division of (no) text only
+        eq_ok = ("1", "nsdecl", "merged", "merged+nsdecl") if (z and t.empty_attr) else ("1", "nsdecl")
         good = (a.get("ser") == "ok" and a.get("reparse") == "ok" and a.get("res") == "1" and
-                a.get("eq") in ("1", "nsdecl") and a.get("idem") in (("1", "reordered") if z else ("1",)))
+                a.get("eq") in eq_ok and a.get("idem") in (("1", "reordered") if z else ("1",)))
         if z:
             good = good and a.get("norm") == "ok"
         if good:
